@@ -516,6 +516,38 @@ func (b *bench) recovery(point string) {
 				o.Count("count_differs_from_listing_after_crash", 1)
 			}
 		}
+		// clause 5 ("survives"): the restarted mailbox stays usable - the interrupted store can be
+		// repeated, also with a (shorter) other version of the message, and the result is exactly
+		// that message; leftovers of the interrupted operation must not leak into it.
+		if op := b.sc.libOp(); (op == "ProcessInbound" || op == "AddOut") && len(o.Violations) == 0 {
+			redo := mboxkit.MsgSpec{MID: targetMID, From: "N0SRC", To: []string{"N0DST"}, BodyLen: 12, Tag: "redo-after-crash"}
+			msg := redo.Build()
+			want := mboxkit.Canon(mboxkit.MustBytes(redo.Build()))
+			var err error
+			folder := "in"
+			if op == "ProcessInbound" {
+				err = h.ProcessInbound(msg)
+			} else {
+				folder = "out"
+				err = h.AddOut(msg)
+			}
+			o.Count("redo_after_crash_operations", 1)
+			rel := folder + "/" + targetMID + mailbox.Ext
+			got, rerr := os.ReadFile(filepath.Join(b.runDir, rel))
+			list := h.Inbox
+			if folder == "out" {
+				list = h.Outbox
+			}
+			_, lerr := list()
+			switch {
+			case err != nil:
+				b.violate("redo-after-crash:error", point, "repeating the interrupted %s on the restarted mailbox failed: %v", op, err)
+			case rerr != nil || !bytes.Equal(mboxkit.Canon(got), want):
+				b.violate("redo-after-crash:content", point, "after repeating the interrupted %s with another version of the message, %s holds %d bytes that are not that message (%q...)", op, rel, len(got), head(got, 60))
+			case lerr != nil:
+				b.violate("redo-after-crash:load-error", point, "after repeating the interrupted %s, %s/ no longer loads: %v", op, folder, lerr)
+			}
+		}
 		// information: leftovers of the interrupted operation
 		for rel := range post {
 			if _, ok := b.pre[rel]; ok {
